@@ -165,9 +165,7 @@ def onExtract (s : Sys) (r m f : Nat) : Sys :=
     let l := s.lp lpI
     let me := s.look m
     let me := { me with rawFlags := f + 2 }
-    let strag : Bool := match l.bound, l.hist.getLast? with
-      | some b, some last => decide (b ≥ me.destT) && isBefore me (s.look last.msg)
-      | _, _ => false
+    let strag : Bool := isStraggler s.look l me
     let (s, evs) :=
       if strag then doRollback s lpI (matchStraggler s.look l.hist me) else (s, [])
     -- forward execution
